@@ -52,6 +52,8 @@ func init() {
 			var err error
 			if form == "yaml" {
 				err = yaml.Unmarshal([]byte(doc), &ss) // JSON is YAML
+			} else if form == "flag" {
+				err = ss.UnmarshalFlag(doc)
 			} else {
 				err = ss.UnmarshalJSON([]byte(doc))
 			}
